@@ -310,13 +310,14 @@ func lemma_parseFrame_trans(p *Parser) {
 // ---- token pump and errors ----
 
 //@ func (p *Parser) NextToken()
-//@   props C11 C16 C04
+//@   props C11 C16 C04 C01 C15
 //@   requires [lexer] p.lexer != nil && lexer.LexInv(p.lexer)
 //@   modifies p.CurrentToken, p.PeekToken
 //@   modifies p.lexer.position, p.lexer.readPosition, p.lexer.CurrentChar, p.lexer.Line, p.lexer.Column, p.lexer.hadNewlineBefore, p.lexer.leadingComments
 //@   ensures [lexer] lexer.LexInv(p.lexer)
 //@   ensures [shift] eq(p.CurrentToken, old(p.PeekToken))
 //@   ensures [origin] lexer.LexTok(p.PeekToken)
+//@   ensures [lookahead@C01,C15] ncalls("(*Lexer).NextToken") == 1 && eq(p.PeekToken, callResult[token.Token]("(*Lexer).NextToken", 0))
 //@   ensures [measure@C11] implies(old(implies(p.PeekToken.Type == token.EOF, lexer.LexPos(p.lexer) == len(lexer.LexInput(p.lexer)))), parserMeasure(p) <= old(parserMeasure(p))-b2i(old(p.CurrentToken.Type) != token.EOF))
 //@   ensures [eof.sticky@C11] implies(old(implies(p.PeekToken.Type == token.EOF, lexer.LexPos(p.lexer) == len(lexer.LexInput(p.lexer)))), eofSticky(p))
 
@@ -466,6 +467,7 @@ func lemma_parseFrame_trans(p *Parser) {
 //@   props C11 C16 C02
 //@   use parseFrame ctxStable infixResult
 //@   ensures [no-infix@C02] implies(!old(has(p.infixParseFns, p.PeekToken.Type)), result == left && eq(p.PeekToken, old(p.PeekToken)))
+//@   ensures [progress@C11] implies(old(p.infixParseFns[p.PeekToken.Type] != nil) && old(p.PeekToken.Type) != token.EOF, parserMeasure(p) < old(parserMeasure(p)))
 //@   atcall slotInfixFn [operator-current@C02] eq(p.CurrentToken, old(p.PeekToken)) && arg_left == left
 
 //@ func (p *Parser) ParseExpression()
@@ -487,9 +489,11 @@ func lemma_parseFrame_trans(p *Parser) {
 //@   atcall (*Parser).ParseInfixExpression [climb.strict@C02] p.PeekToken.Type != token.SEMICOLON && precedence < specLevel(p.precedences, p.PeekToken.Type)
 //@   atcall (*Parser).ParseInfixExpression [smart.nocut@C13] !(p.smartSemicolons && p.PeekToken.AfterNewline && (p.PeekToken.Type == token.LPAREN || p.PeekToken.Type == token.LBRACKET))
 //@   atcall (*Parser).ParseInfixExpression [restricted.postfix@C02,C13] !(p.PeekToken.AfterNewline && (p.PeekToken.Type == token.INCREMENT || p.PeekToken.Type == token.DECREMENT))
-//@   ensures [climb.exit@C02,C13] p.PeekToken.Type == token.SEMICOLON || precedence >= specLevel(p.precedences, p.PeekToken.Type) || (p.smartSemicolons && p.PeekToken.AfterNewline && (p.PeekToken.Type == token.LPAREN || p.PeekToken.Type == token.LBRACKET)) || (p.PeekToken.AfterNewline && (p.PeekToken.Type == token.INCREMENT || p.PeekToken.Type == token.DECREMENT))
+//@   ensures [climb.exit@C02,C13] p.PeekToken.Type == token.SEMICOLON || precedence >= specLevel(p.precedences, p.PeekToken.Type) || (p.smartSemicolons && p.PeekToken.AfterNewline && (p.PeekToken.Type == token.LPAREN || p.PeekToken.Type == token.LBRACKET)) || (p.PeekToken.AfterNewline && (p.PeekToken.Type == token.INCREMENT || p.PeekToken.Type == token.DECREMENT)) || p.infixParseFns[p.PeekToken.Type] == nil
 //@   loop 1 invariant [frame] parserInv(p) && sameCtx(p.contextStack, old(p.contextStack)) && p.currentExpressionPrecedence == old(p.currentExpressionPrecedence) && isPrefixErr(old(p.errors), p.errors) && parserMeasure(p) <= old(parserMeasure(p))
 //@   loop 1 invariant [left@C11] implies(isNil(left), len(p.errors) > len(old(p.errors)) || isNil(old(left)))
+//@   assumes [eof.no-infix] p.infixParseFns[token.EOF] == nil
+//@   loop 1 decreases parserMeasure(p)
 
 // Re-entrant continuation for expression interceptors: the same loop, at the binding power the innermost wrapper published.
 //@ func (p *Parser) ParseRemainingExpression(left)
